@@ -79,9 +79,9 @@ Definition map_ident (g : name) (n : N) : name := (us :: g ++ us :: dec n) ++ s_
 (* ---- rewriteMessageField: a field whose GoName is a protoreflect.Message method gets a trailing '_' -------- *)
 Definition is_reserved (g : name) : bool := existsb (name_eqb g) reserved.
 Definition rewrite_field (g : name) : name := if is_reserved g then g ++ [us] else g.
-(* the struct members of the generated message type: rewritten fields, and oneofs (NOT rewritten: D8) *)
+(* the struct members of the generated message type: fields and (real) oneofs, both rewritten (oneofs since the D8 fix) *)
 Definition struct_members (field_gonames oneof_gonames : list name) : list name :=
-  map rewrite_field field_gonames ++ oneof_gonames.
+  map rewrite_field field_gonames ++ map rewrite_field oneof_gonames.
 (* protoc-gen-go emits Get<GoName> for every field *)
 Definition getter (g : name) : name := s_get ++ g.
 Fixpoint nodupb (l : list name) : bool :=
